@@ -125,3 +125,23 @@ func Ulps(a, b float64) float64 {
 	u := math.Nextafter(m, math.Inf(1)) - m
 	return math.Abs(a-b) / u
 }
+
+// NoDerivatives: every derivative slot reads zero.
+func (a SState) NoDerivatives() bool {
+	for _, g := range a.Grad {
+		if g != 0 {
+			return false
+		}
+	}
+	for _, r := range a.Hess {
+		for _, h := range r {
+			if h != 0 {
+				return false
+			}
+		}
+	}
+	return true
+}
+
+// IsZeroState: value zero and all derivative slots zero.
+func (a SState) IsZeroState() bool { return a.Val == 0 && a.NoDerivatives() }
